@@ -27,9 +27,14 @@ def _sched_worker(args):
     common.INTERN.__init__()
     rpc = Rpc()
     try:
+        kw = dict(kw)
+        order = kw.pop('order', None)
         r = sched.SchedRun(rpc, random.Random(seed), **kw)
         try:
-            r.run()
+            if order is not None:
+                r.run_order(order)
+            else:
+                r.run()
             term = r.coq_case()
             defs = common.INTERN.defs_for(term)
             info = r.describe()
@@ -60,11 +65,23 @@ def _sched_worker(args):
         rpc.close()
 
 
-def sched_check(ctx, n, kw, monitor, tags=('SchedOutcome', 'SchedFinalLog', 'SchedTail')):
+def interleavings(a, b):
+    """All merges of a steps of process 0 with b steps of process 1."""
+    if a == 0:
+        return [[1] * b]
+    if b == 0:
+        return [[0] * a]
+    return [[0] + r for r in interleavings(a - 1, b)] + [[1] + r for r in interleavings(a, b - 1)]
+
+
+def sched_check(ctx, n, kw, monitor, tags=('SchedOutcome', 'SchedFinalLog', 'SchedTail'), orders=None):
     import multiprocessing, common
-    seeds = [ctx.seed * 7001 + k for k in range(n)]
+    if orders is not None:
+        jobs = [(ctx.seed * 7001 + (k % n), dict(kw, order=o)) for k, o in enumerate(orders)]
+    else:
+        jobs = [(ctx.seed * 7001 + k, kw) for k in range(n)]
     with multiprocessing.Pool(10) as pool:
-        res = pool.map(_sched_worker, [(sd, kw) for sd in seeds], chunksize=1)
+        res = pool.map(_sched_worker, jobs, chunksize=1)
     ok = [(t, d, i) for (t, d, i, e) in res if e is None]
     errs = [(i, e) for (t, d, i, e) in res if e is not None]
     wd = mkscratch('ergo-sched-')
@@ -142,6 +159,8 @@ def sched_check(ctx, n, kw, monitor, tags=('SchedOutcome', 'SchedFinalLog', 'Sch
 
 def mon_sched_common(info):
     out = []
+    for pv in info.get('protocol', []):
+        out.append(('multi_write_section' if pv[0] == 'second_write_in_section' else 'multi_section_command', pv[1]))
     fs = info.get('final_snapshot')
     if info['post']['list_rc'] != 0 or info['post']['new_rc'] != 0 or info['post']['list2_rc'] != 0 or not info['post']['new_visible']:
         out.append(('store_unusable_after_run', info['post']))
@@ -240,9 +259,51 @@ def check_C01(ctx):
     sched_check(ctx, n // 2, {'nwriters': 4, 'nreaders': 0, 'pre_steps': 8}, mon_C01_sched)
 
 
+def init_race(ctx):
+    """`init` (which takes no lock) racing with the first acknowledged write on a store without a log
+    file: park init right before it creates the file, let a `new task` commit, resume init."""
+    import sched
+    rpc = Rpc()
+    lost = 0
+    n = 0
+    try:
+        for variant in ('plans', 'lock'):
+            st = Store()
+            try:
+                os.remove(st.log) if variant == 'plans' else os.remove(os.path.join(st.ergodir, 'lock'))
+                ctl = sched.Controller(st)
+                try:
+                    p = ctl.launch('w', {'k': 'init'}, ['init'], None, 'ensure.create')
+                    rc, out, err = st.run(['--json', 'new', 'task'], stdin=b'{"title":"first write"}')
+                    ack = rc == 0
+                    while p.at is not None:
+                        ctl.release(p)
+                    n += 1
+                    rc2, out2, _ = st.run(['--json', 'list', '--all'])
+                    shown = [t['title'] for t in json.loads(out2)] if rc2 == 0 else None
+                    if ack and (shown is None or 'first write' not in shown):
+                        lost += 1
+                        ctx.violations.append(('monitor', 'init racing with the first write lost an acknowledged event (variant %s)' % variant,
+                                               {'kind': 'schedule', 'commands': ['init parked at ensure.create', 'new task {"title":"first write"} (exit 0)', 'init resumed', 'list --all'], 'shown': shown}))
+                finally:
+                    ctl.close()
+            finally:
+                st.close()
+        ctx.cov['init_race_runs'] = n
+    finally:
+        rpc.close()
+
+
 def check_C02(ctx):
     n = 90 if ctx.quick() else 1200
     sched_check(ctx, n, {'nwriters': 4, 'nreaders': 1}, mon_sched_common)
+    init_race(ctx)
+    if not ctx.quick():
+        # exhaustive: every interleaving of the sync points of two writers (5 steps each) on 3 store shapes
+        orders = interleavings(5, 5)
+        sched_check(ctx, 3, {'nwriters': 2, 'nreaders': 0}, mon_sched_common, orders=orders * 3)
+        ctx.cov['exhaustive'] = True
+        ctx.cov['exhaustive_space'] = 'all %d interleavings of two writers x 5 sync-point steps, on 3 store/command shapes' % len(orders)
 
 
 def check_C03(ctx):
@@ -259,6 +320,11 @@ def check_C04(ctx):
 def check_C13(ctx):
     n = 90 if ctx.quick() else 1200
     sched_check(ctx, n, {'nwriters': 3, 'nreaders': 3}, mon_C13_sched)
+    if not ctx.quick():
+        orders = interleavings(5, 3)
+        sched_check(ctx, 4, {'nwriters': 1, 'nreaders': 1}, mon_C13_sched, orders=orders * 4)
+        ctx.cov['exhaustive'] = True
+        ctx.cov['exhaustive_space'] = 'every reader start time (3 reader steps) relative to every step of one writer (5 steps): %d interleavings x 4 shapes' % len(orders)
 
 
 def check_C05(ctx):
@@ -521,7 +587,11 @@ def row_properties(ctx):
             rc, out, _ = st.run(['--json', 'list', '--epics'])
             eid = json.loads(out)[0]['id']
             st.run(['--agent', text[:12].replace('\n', ' '), 'new', 'task'], stdin=json.dumps({'title': text, 'epic': eid, 'claim': text[:12]}, ensure_ascii=False).encode())
-            st.run(['new', 'task'], stdin=json.dumps({'title': 'dep ' + text}, ensure_ascii=False).encode())
+            rc, out, _ = st.run(['--json', 'new', 'task'], stdin=json.dumps({'title': text + ' blocker'}, ensure_ascii=False).encode())
+            b1 = json.loads(out)['id']
+            rc, out, _ = st.run(['--json', 'new', 'task'], stdin=json.dumps({'title': 'waits ' + text}, ensure_ascii=False).encode())
+            b2 = json.loads(out)['id']
+            st.run(['sequence', b1, b2])
             for w in [14, 20, 33, 80, 131, 240]:
                 resp = rpc.call(op='tree', dir=st.ergodir, all=True, width=w, repo=st.dir)
                 rows = [base64.b64decode(r) for r in resp['ok']['rows']]
@@ -976,6 +1046,27 @@ def check_C12(ctx):
         shutil.rmtree(wd, ignore_errors=True)
     reads_pure(ctx)
     epics_order_deterministic(ctx)
+    oversized_event(ctx)
+
+
+def oversized_event(ctx):
+    """A command whose event would exceed the reader's 10 MiB line limit must either be refused with
+    nothing written, or stay readable: afterwards every command still works."""
+    st = Store()
+    try:
+        st.run(['new', 'task'], stdin=b'{"title":"small"}')
+        big = 'x' * (10 * 1024 * 1024 + 4096)
+        before = st.read_log()
+        rc, out, err = st.run(['--json', 'new', 'task'], stdin=json.dumps({'title': 'big', 'body': big}).encode(), timeout=120)
+        rc2, out2, err2 = st.run(['--json', 'list', '--all'], timeout=120)
+        ctx.cov['oversized_event'] = {'create_rc': rc, 'list_rc_after': rc2}
+        if rc2 != 0:
+            ctx.violations.append(('monitor', 'an accepted over-long event makes every later read fail: %s' % err2.decode()[:160],
+                                   {'kind': 'cli', 'commands': 'new task with a body of 10 MiB + 4 KiB; list --all'}))
+        elif rc != 0 and st.read_log() != before:
+            ctx.violations.append(('monitor', 'a refused over-long event still changed the log', {'kind': 'cli'}))
+    finally:
+        st.close()
 
 
 def reads_pure(ctx):
